@@ -159,6 +159,9 @@ func runC19(c *Ctx, tier string) {
 	runLateErrorRoutes(c, "C19-E4")
 	runRemoteParamsUsed(c, "C19-K4")
 	runClientPathEscaping(c, "C19-K5")
+	runErrorTestedBeforeUse(c, "C19-E5")
+	runPathEscapePairing(c, "C19-K6")
+	runQueryTextQuoting(c, "C19-K7")
 	// E2
 	if fn := p.Func("(*api/queryio.Writer).WriteControl"); fn == nil {
 		c.Undecided("C19-E2", "(*api/queryio.Writer).WriteControl", "anchor does not resolve")
